@@ -1,5 +1,482 @@
+(* C11/Proofs.v — the reader applied to the writer's text returns the value. *)
 From Coq Require Import ZArith List Bool Lia.
 From C11 Require Import Generated Model ProofsLex.
 Import ListNotations.
 Open Scope Z_scope.
-Lemma stub : True. Proof. exact I. Qed.
+
+(* ------------------------------------------------------------- induction on values *)
+Section ValInd.
+Variable P : val -> Prop.
+Hypothesis HI : forall z, P (VInt z).
+Hypothesis HR : forall r, P (VReal r).
+Hypothesis HC : forall c, P (VChar c).
+Hypothesis HS : forall s, P (VStr s).
+Hypothesis HY : forall s, P (VSym s).
+Hypothesis HL : forall l, Forall P l -> P (VList l).
+Hypothesis HD : forall kvs, Forall (fun kv => P (fst kv) /\ P (snd kv)) kvs -> P (VDict kvs).
+Hypothesis HO : forall k, P (VOpaque k).
+
+Fixpoint val_ind2 (v : val) : P v :=
+  match v with
+  | VInt z => HI z
+  | VReal r => HR r
+  | VChar c => HC c
+  | VStr s => HS s
+  | VSym s => HY s
+  | VList l => HL l ((fix go (l : list val) : Forall P l :=
+                        match l with
+                        | [] => Forall_nil P
+                        | x :: xs => Forall_cons x (val_ind2 x) (go xs)
+                        end) l)
+  | VDict kvs => HD kvs ((fix go (l : list (val * val)) : Forall (fun kv => P (fst kv) /\ P (snd kv)) l :=
+                            match l with
+                            | [] => Forall_nil _
+                            | (k, x) :: xs => Forall_cons (k, x) (conj (val_ind2 k) (val_ind2 x)) (go xs)
+                            end) kvs)
+  | VOpaque k => HO k
+  end.
+End ValInd.
+
+Ltac eqb_false c k := replace (c =? k) with false by (symmetry; apply Z.eqb_neq; lia).
+
+Section Main.
+Variable E : env.
+Hypothesis HE : env_ok E.
+Notation C := std_cfg.
+
+(* ------------------------------------------------------------- unfolding *)
+Lemma kg_read_S : forall f t rn inl,
+  kg_read E C (S f) t rn inl =
+  match skip E f t inl with
+  | NoFuel => NoFuel
+  | Err => Err
+  | Ok t1 => kg_dispatch E C (kg_read E C f) (read_list E C f) t1 rn inl
+  end.
+Proof. reflexivity. Qed.
+
+Lemma read_list_S : forall f t d,
+  read_list E C (S f) t d =
+  match skip E f t true with
+  | NoFuel => NoFuel
+  | Err => Err
+  | Ok t1 => list_loop E C f t1 d
+  end.
+Proof. reflexivity. Qed.
+
+Lemma list_loop_S : forall f t d,
+  list_loop E C (S f) t d =
+  loop_body C (kg_read E C f) (read_list E C f) (list_loop E C f) (skip E f) t d.
+Proof. reflexivity. Qed.
+
+(* ------------------------------------------------------------- fuel that suffices *)
+Fixpoint need (v : val) : nat :=
+  match v with
+  | VList l => S (S ((fix ln (l : list val) : nat :=
+                        match l with [] => 1 | x :: xs => S (need x + ln xs) end) l))
+  | _ => 1
+  end%nat.
+Fixpoint lneed (l : list val) : nat :=
+  match l with [] => 1 | x :: xs => S (need x + lneed xs) end%nat.
+Lemma need_list : forall l, need (VList l) = S (S (lneed l)).
+Proof.
+  intros l. reflexivity.
+Qed.
+
+(* ------------------------------------------------------------- the first code point of a written value *)
+Definition elem_head (t : list Z) : Prop :=
+  exists c r, t = c :: r /\ is_space E c = false /\ c <> 93 /\ c <> 125 /\
+              (c = 58 -> exists c2 r2, r = c2 :: r2 /\ c2 <> 34).
+
+Lemma elem_head_lexstart : forall t rest, elem_head t -> lexstart E (t ++ rest).
+Proof.
+  intros t rest (c & r & -> & Hsp & _ & _ & H58). cbn [app lexstart]. split; [exact Hsp |].
+  intros Hc. destruct (H58 Hc) as (c2 & r2 & -> & Hne). exact Hne.
+Qed.
+
+Lemma digit_not_space : forall c, ascii_digit c = true -> is_space E c = false.
+Proof.
+  intros c H. apply ascii_digit_range in H. unfold is_space.
+  assert (Hc : (c <? 128) = true) by (apply Z.ltb_lt; lia). rewrite Hc.
+  apply orb_false_iff. split; apply andb_false_iff.
+  - right. apply Z.leb_gt. lia.
+  - right. apply Z.leb_gt. lia.
+Qed.
+
+Lemma numlex_head : forall t, numlex E t -> elem_head t.
+Proof.
+  intros t (sign & c0 & body & -> & Hd & [-> | ->] & _).
+  - exists c0, body. pose proof (ascii_digit_range c0 Hd).
+    repeat split; [apply digit_not_space; exact Hd | lia | lia | lia].
+  - exists 45, (c0 :: body). repeat split; try lia.
+Qed.
+
+(* ------------------------------------------------------------- atoms through kg_read *)
+Lemma digit_not_delim : forall c, ascii_digit c = true ->
+  existsb (Z.eqb (if c =? 10 then 59 else c)) (c_delims C) = false.
+Proof.
+  intros c H. apply ascii_digit_range in H. eqb_false c 10.
+  cbn [c_delims std_cfg existsb].
+  eqb_false c 59. eqb_false c 40. eqb_false c 41. eqb_false c 123. eqb_false c 125. eqb_false c 93.
+  reflexivity.
+Qed.
+
+Lemma not_0c : forall c0 body rest u, ascii_digit c0 = true -> stops rest ->
+  num_loop E ((c0 :: body) ++ rest) false = (c0 :: body, rest, u) ->
+  ((c0 =? 48) && match body ++ rest with c :: _ => c =? 99 | [] => false end) = false.
+Proof.
+  intros c0 body rest u Hd Hr Hloop.
+  destruct (body ++ rest) as [| x tl] eqn:Hb; [apply andb_false_r |].
+  rewrite (numlex_second_not_c E c0 body rest u x tl Hd Hr Hloop Hb). apply andb_false_r.
+Qed.
+
+Lemma kg_read_numlex : forall t v, numlex E t ->
+  (forall rest, stops rest -> read_num E (t ++ rest) = Ok (Some v, rest)) ->
+  forall fuel rest inl, stops rest -> kg_read E C (S fuel) (t ++ rest) true inl = Ok (Some v, rest).
+Proof.
+  intros t v Hn Hrd fuel rest inl Hr.
+  rewrite kg_read_S, (skip_lexstart E fuel (t ++ rest) inl (elem_head_lexstart t rest (numlex_head t Hn))).
+  specialize (Hrd rest Hr).
+  destruct Hn as (sign & c0 & body & -> & Hd & Hsg & Hl).
+  destruct (Hl rest Hr) as (u & Hloop).
+  pose proof (ascii_digit_range c0 Hd) as Hrg.
+  destruct Hsg as [-> | ->]; cbn [app] in *; unfold kg_dispatch.
+  - rewrite (digit_not_delim c0 Hd). eqb_false c0 10.
+    rewrite (not_0c c0 body rest u Hd Hr Hloop), (digit_numeric E c0 Hd). cbn [orb]. exact Hrd.
+  - change (existsb (Z.eqb (if 45 =? 10 then 59 else 45)) (c_delims C)) with false.
+    change (45 =? 10) with false. change (45 =? 48) with false. cbv beta iota. cbn [andb].
+    change (is_numeric E 45) with false. change (45 =? 45) with true.
+    cbn [orb andb next_is_numeric]. rewrite (digit_numeric E c0 Hd). exact Hrd.
+Qed.
+
+Lemma kg_read_int : forall z fuel rest inl, stops rest ->
+  kg_read E C (S fuel) (write_int z ++ rest) true inl = Ok (Some (VInt z), rest).
+Proof.
+  intros z fuel rest inl Hr. apply kg_read_numlex; [apply numlex_int | | exact Hr].
+  intros rest' Hr'. apply read_num_int. exact Hr'.
+Qed.
+
+Lemma kg_read_real : forall f fuel rest inl, finite f = true -> stops rest ->
+  kg_read E C (S fuel) (fmt_real E f ++ rest) true inl = Ok (Some (VReal f), rest).
+Proof.
+  intros f fuel rest inl Hf Hr. pose proof (fmt_shape E HE f Hf) as Hsh. pose proof (parse_fmt E HE f Hf) as Hp.
+  apply kg_read_numlex; [apply numlex_real; exact Hsh | | exact Hr].
+  intros rest' Hr'. apply read_num_real; assumption.
+Qed.
+
+Lemma kg_read_char : forall c fuel rest rn inl,
+  kg_read E C (S fuel) (48 :: 99 :: c :: rest) rn inl = Ok (Some (VChar c), rest).
+Proof.
+  intros c fuel rest rn inl. rewrite kg_read_S, skip_lexstart.
+  - reflexivity.
+  - cbn. split; [reflexivity | lia].
+Qed.
+
+Lemma stops_not_quote : forall rest, stops rest -> match rest with [] => True | c :: _ => c <> 34 end.
+Proof. intros [| c rest] H; [exact I |]. cbn in H. destruct (stopc_cases c H) as [-> | [-> | ->]]; lia. Qed.
+
+Lemma kg_read_str : forall s fuel rest rn inl, stops rest ->
+  kg_read E C (S fuel) (34 :: write_str_body C s ++ 34 :: rest) rn inl = Ok (Some (VStr s), rest).
+Proof.
+  intros s fuel rest rn inl Hr. rewrite kg_read_S, skip_lexstart.
+  - unfold kg_dispatch.
+    change (existsb (Z.eqb (if 34 =? 10 then 59 else 34)) (c_delims C)) with false.
+    change (34 =? 10) with false. change (34 =? 48) with false. cbv beta iota. cbn [andb].
+    change (is_numeric E 34) with false. change (34 =? 45) with false. change (34 =? 34) with true.
+    rewrite andb_false_r. cbn [orb]. cbv beta iota.
+    rewrite (read_string_written s rest (stops_not_quote rest Hr)). reflexivity.
+  - cbn. split; [reflexivity | lia].
+Qed.
+
+Lemma alpha_or_dot_not_quote : forall c, (is_alpha E c || (c =? 46)) = true -> c <> 34.
+Proof. intros c H ->. cbn in H. discriminate. Qed.
+
+Lemma kg_read_sym : forall s fuel rest rn inl, valid_sym E s = true -> stops rest ->
+  kg_read E C (S fuel) (58 :: s ++ rest) rn inl = Ok (Some (VSym s), rest).
+Proof.
+  intros s fuel rest rn inl Hv Hr. destruct s as [| c s']; [discriminate |].
+  cbn [valid_sym] in Hv. apply andb_true_iff in Hv as [Hc Hall].
+  rewrite kg_read_S, skip_lexstart.
+  - unfold kg_dispatch. cbn [app].
+    change (existsb (Z.eqb (if 58 =? 10 then 59 else 58)) (c_delims C)) with false.
+    change (58 =? 10) with false. change (58 =? 48) with false. cbv beta iota. cbn [andb].
+    change (is_numeric E 58) with false. change (58 =? 45) with false. change (58 =? 34) with false.
+    change (58 =? 58) with true. rewrite andb_false_r. cbn [orb andb]. cbv beta iota. rewrite Hc.
+    change (c :: s' ++ rest) with ((c :: s') ++ rest). apply read_sym_written; assumption.
+  - cbn [app lexstart]. split; [reflexivity |]. intros _. apply alpha_or_dot_not_quote. exact Hc.
+Qed.
+
+(* ------------------------------------------------------------- lists *)
+Definition rd_ok (v : val) : Prop :=
+  forall fuel rest inl, stops rest -> (need v <= fuel)%nat ->
+  kg_read E C fuel (write E C v ++ rest) true inl = Ok (Some v, rest).
+
+Definition elem_ok (v : val) : Prop := rd_ok v /\ is_dict v = false /\ elem_head (write E C v).
+
+Lemma demote_id : forall x : val, is_dict x = false -> match x with VDict _ => VOpaque 2 | _ => x end = x.
+Proof. intros x H. destruct x; try reflexivity. discriminate. Qed.
+
+Lemma loop_step : forall delim x tail f t2 xs rest,
+  (delim = 93 \/ delim = 125) -> elem_ok x -> stops tail -> (need x <= f)%nat ->
+  skip E f tail true = Ok t2 -> list_loop E C f t2 delim = Ok (xs, rest) ->
+  list_loop E C (S f) (write E C x ++ tail) delim = Ok (x :: xs, rest).
+Proof.
+  intros delim x tail f t2 xs rest Hdel (Hrd & Hnd & Hh) Hs Hle Hsk Hlp.
+  pose proof (Hrd f tail true Hs Hle) as Hk.
+  destruct Hh as (c & r & He & _ & H93 & H125 & _).
+  rewrite list_loop_S. rewrite He in Hk |- *. cbn [app] in Hk |- *.
+  unfold loop_body.
+  assert (Hcd : (c =? delim) = false) by (apply Z.eqb_neq; destruct Hdel as [-> | ->]; assumption).
+  rewrite Hcd. cbn [c_list_neg c_reread std_cfg]. rewrite Hk.
+  rewrite (demote_id x Hnd). cbn [andb]. rewrite Hsk, Hlp. reflexivity.
+Qed.
+
+Lemma join_cons2 : forall sep p q r, join sep (p :: q :: r) = p ++ sep ++ join sep (q :: r).
+Proof. reflexivity. Qed.
+
+Lemma delim_lexstart : forall delim rest, (delim = 93 \/ delim = 125) -> lexstart E (delim :: rest).
+Proof. intros delim rest [-> | ->]; cbn; (split; [reflexivity | lia]). Qed.
+
+Lemma delim_stops : forall delim rest, (delim = 93 \/ delim = 125) -> stops (delim :: rest).
+Proof. intros delim rest [-> | ->]; reflexivity. Qed.
+
+Lemma join_head : forall y ys rest, elem_head (write E C y) ->
+  lexstart E (join [32] (map (write E C) (y :: ys)) ++ rest).
+Proof.
+  intros y ys rest Hh. destruct ys as [| z zs].
+  - cbn [map join]. apply elem_head_lexstart. exact Hh.
+  - cbn [map]. rewrite join_cons2, <- app_assoc. apply elem_head_lexstart. exact Hh.
+Qed.
+
+Lemma list_loop_written : forall delim, (delim = 93 \/ delim = 125) ->
+  forall l, Forall elem_ok l -> forall fuel rest, (lneed l <= fuel)%nat ->
+  list_loop E C fuel (join [32] (map (write E C) l) ++ delim :: rest) delim = Ok (l, rest).
+Proof.
+  intros delim Hdel l Hall. induction Hall as [| x xs Hx Hxs IH]; intros fuel rest Hf.
+  - cbn [lneed] in Hf. destruct fuel as [| f]; [lia |].
+    cbn [map join app]. rewrite list_loop_S. unfold loop_body. rewrite Z.eqb_refl. reflexivity.
+  - cbn [lneed] in Hf. destruct fuel as [| f]; [lia |].
+    destruct xs as [| y ys].
+    + cbn [map join].
+      apply (loop_step delim x (delim :: rest) f (delim :: rest) [] rest Hdel Hx).
+      * apply delim_stops. exact Hdel.
+      * lia.
+      * apply skip_lexstart. apply delim_lexstart. exact Hdel.
+      * apply (IH f rest). cbn [lneed] in *. lia.
+    + cbn [map]. rewrite join_cons2, <- !app_assoc. cbn [app].
+      apply (loop_step delim x _ f (join [32] (map (write E C) (y :: ys)) ++ delim :: rest) (y :: ys) rest Hdel Hx).
+      * reflexivity.
+      * lia.
+      * apply skip_blank_lexstart. apply join_head. inversion Hxs as [| ? ? Hy _]. destruct Hy as (_ & _ & Hh). exact Hh.
+      * apply (IH f rest). lia.
+Qed.
+
+Lemma read_list_written : forall delim, (delim = 93 \/ delim = 125) ->
+  forall l, Forall elem_ok l -> forall fuel rest, (S (lneed l) <= fuel)%nat ->
+  read_list E C fuel (join [32] (map (write E C) l) ++ delim :: rest) delim = Ok (l, rest).
+Proof.
+  intros delim Hdel l Hall fuel rest Hf. destruct fuel as [| f]; [lia |].
+  rewrite read_list_S, skip_lexstart.
+  - apply list_loop_written; [exact Hdel | exact Hall | lia].
+  - destruct l as [| y ys].
+    + cbn [map join app]. apply delim_lexstart. exact Hdel.
+    + apply join_head. inversion Hall as [| ? ? Hy _]. destruct Hy as (_ & _ & Hh). exact Hh.
+Qed.
+
+Lemma write_list_eq : forall l, write E C (VList l) = 91 :: join [32] (map (write E C) l) ++ [93].
+Proof. reflexivity. Qed.
+
+Lemma kg_read_list : forall l, Forall elem_ok l -> rd_ok (VList l).
+Proof.
+  intros l Hall fuel rest inl Hr Hf. rewrite need_list in Hf.
+  destruct fuel as [| f]; [lia |].
+  rewrite write_list_eq. cbn [app]. rewrite <- app_assoc. cbn [app].
+  rewrite kg_read_S, skip_lexstart.
+  - unfold kg_dispatch.
+    change (existsb (Z.eqb (if 91 =? 10 then 59 else 91)) (c_delims C)) with false.
+    change (91 =? 10) with false. change (91 =? 48) with false. cbv beta iota. cbn [andb].
+    change (is_numeric E 91) with false. change (91 =? 45) with false. change (91 =? 34) with false.
+    change (91 =? 58) with false. change (91 =? 91) with true. cbn [orb andb]. cbv beta iota.
+    rewrite (read_list_written 93 (or_introl eq_refl) l Hall f rest) by lia. reflexivity.
+  - cbn. split; [reflexivity | lia].
+Qed.
+
+(* ------------------------------------------------------------- every written value *)
+Lemma wr_true_not_dict : forall v, wr E true v = true -> is_dict v = false.
+Proof. intros v H. destruct v; try reflexivity. cbn in H. discriminate. Qed.
+
+Theorem read_written : forall v inner, wr E inner v = true -> is_dict v = false -> elem_ok v.
+Proof.
+  induction v as [z | r | c | s | s | l IH | kvs IH | k] using val_ind2; intros inner Hw Hnd.
+  - (* integer *)
+    split; [| split; [reflexivity | apply numlex_head; apply numlex_int]].
+    intros fuel rest inl Hr Hf. destruct fuel as [| f]; [cbn in Hf; lia |]. apply kg_read_int. exact Hr.
+  - (* real *)
+    cbn [wr] in Hw.
+    split; [| split; [reflexivity | apply numlex_head; apply numlex_real; apply (fmt_shape E HE); exact Hw]].
+    intros fuel rest inl Hr Hf. destruct fuel as [| f]; [cbn in Hf; lia |]. apply kg_read_real; assumption.
+  - (* character *)
+    split; [| split; [reflexivity |]].
+    + intros fuel rest inl Hr Hf. destruct fuel as [| f]; [cbn in Hf; lia |]. apply kg_read_char.
+    + exists 48, [99; c]. repeat split; try lia.
+  - (* string *)
+    split; [| split; [reflexivity |]].
+    + intros fuel rest inl Hr Hf. destruct fuel as [| f]; [cbn in Hf; lia |].
+      cbn [write c_sopen c_sclose std_cfg app]. rewrite <- app_assoc. cbn [app]. apply kg_read_str. exact Hr.
+    + exists 34, (write_str_body C s ++ [34]). repeat split; try lia.
+  - (* symbol *)
+    cbn [wr] in Hw.
+    split; [| split; [reflexivity |]].
+    + intros fuel rest inl Hr Hf. destruct fuel as [| f]; [cbn in Hf; lia |].
+      cbn [write c_sym_pre std_cfg app]. apply kg_read_sym; assumption.
+    + destruct s as [| c s']; [discriminate |]. cbn [valid_sym] in Hw. apply andb_true_iff in Hw as [Hc _].
+      exists 58, (c :: s'). repeat split; try lia. intros _. exists c, s'. split; [reflexivity |].
+      apply alpha_or_dot_not_quote. exact Hc.
+  - (* list *)
+    cbn [wr] in Hw.
+    assert (Hall : Forall elem_ok l).
+    { rewrite forallb_forall in Hw. rewrite Forall_forall in IH |- *. intros x Hx.
+      apply (IH x Hx true (Hw x Hx)). apply wr_true_not_dict. apply Hw. exact Hx. }
+    split; [apply kg_read_list; exact Hall | split; [reflexivity |]].
+    exists 91, (join [32] (map (write E C) l) ++ [93]). repeat split; try lia.
+  - discriminate.
+  - discriminate.
+Qed.
+
+(* ------------------------------------------------------------- fuel bound *)
+Lemma lneed_bound : forall l,
+  Forall (fun v => (need v <= 2 * length (write E C v) + 1)%nat) l ->
+  (lneed l <= 2 * length (join [32%Z] (map (write E C) l)) + 3)%nat.
+Proof.
+  intros l H. induction H as [| x xs Hx Hxs IH].
+  - cbn. lia.
+  - destruct xs as [| y ys].
+    + cbn [lneed map join]. lia.
+    + cbn [map]. rewrite join_cons2, !app_length. cbn [length]. cbn [map] in IH.
+      change (lneed (x :: y :: ys)) with (S (need x + lneed (y :: ys))). lia.
+Qed.
+
+Lemma need_bound : forall v, (need v <= 2 * length (write E C v) + 1)%nat.
+Proof.
+  induction v as [z | r | c | s | s | l IH | kvs IH | k] using val_ind2; try (cbn [need]; lia).
+  rewrite need_list, write_list_eq. pose proof (lneed_bound l IH) as Hb.
+  cbn [length]. rewrite app_length. cbn [length]. lia.
+Qed.
+
+(* ------------------------------------------------------------- .rs on values that are not dictionaries *)
+Lemma asarray_list_is_list : forall l, exists l', asarray E (VList l) = VList l'.
+Proof.
+  intros l. cbn [asarray].
+  destruct (forallb is_num _).
+  - destruct (existsb is_real _); [| eexists; reflexivity].
+    cbn [rshape length map_leaves]. eexists. reflexivity.
+  - destruct (Nat.eqb _ 1); eexists; reflexivity.
+Qed.
+
+Theorem rs_written_nodict : forall v, writable E v = true -> is_dict v = false ->
+  rs E C (write E C v) = Ok (asarray E v).
+Proof.
+  intros v Hw Hnd. destruct (read_written v false Hw Hnd) as (Hrd & _ & _).
+  unfold rs, kg_read_array. cbn [c_top_neg std_cfg].
+  pose proof (Hrd (rs_fuel (write E C v)) [] false I) as Hk. rewrite app_nil_r in Hk.
+  rewrite Hk by (unfold rs_fuel; pose proof (need_bound v); lia).
+  destruct v as [z | r | c | s | s | l | kvs | k]; try reflexivity.
+  destruct (asarray_list_is_list l) as (l' & ->). reflexivity.
+Qed.
+
+(* ------------------------------------------------------------- dictionaries *)
+Definition entry (kv : val * val) : val := VList [fst kv; snd kv].
+
+Lemma write_dict_eq : forall kvs,
+  write E C (VDict kvs) = 58 :: 123 :: join [32] (map (write E C) (map entry kvs)) ++ [125].
+Proof.
+  intros kvs. cbn [write c_dopen c_dsep c_dclose std_cfg app]. do 3 f_equal.
+  rewrite map_map. f_equal. apply map_ext. intros [k x]. reflexivity.
+Qed.
+
+Lemma keys_distinct_mid : forall l1 k l2, keys_distinct E (l1 ++ k :: l2) = true ->
+  forallb (fun k0 => negb (key_eqb E k0 k)) l1 = true.
+Proof.
+  induction l1 as [| a l1 IH]; intros k l2 H; [reflexivity |].
+  cbn [app keys_distinct] in H. apply andb_true_iff in H as [Ha H].
+  cbn [forallb]. rewrite (IH k l2 H), andb_true_r.
+  rewrite existsb_app in Ha. cbn [existsb] in Ha.
+  destruct (key_eqb E a k); [| reflexivity].
+  rewrite orb_true_l, orb_true_r in Ha. discriminate.
+Qed.
+
+Lemma dict_set_fresh : forall acc k x,
+  forallb (fun k0 => negb (key_eqb E k0 k)) (map fst acc) = true -> dict_set E acc k x = acc ++ [(k, x)].
+Proof.
+  induction acc as [| [k0 x0] acc IH]; intros k x H; [reflexivity |].
+  cbn [map fst forallb] in H. apply andb_true_iff in H as [H0 H].
+  cbn [dict_set app]. destruct (key_eqb E k0 k); [discriminate |]. rewrite (IH k x H). reflexivity.
+Qed.
+
+Lemma list_to_dict_entries : forall kvs acc,
+  forallb (fun kv => is_key (fst kv)) kvs = true ->
+  keys_distinct E (map fst (acc ++ kvs)) = true ->
+  list_to_dict E (map entry kvs) acc = Some (acc ++ kvs).
+Proof.
+  induction kvs as [| [k x] kvs IH]; intros acc Hk Hd.
+  - cbn. rewrite app_nil_r. reflexivity.
+  - cbn [forallb fst] in Hk. apply andb_true_iff in Hk as [Hk1 Hk].
+    cbn [map entry fst snd list_to_dict]. rewrite Hk1.
+    rewrite map_app in Hd. cbn [map fst] in Hd.
+    rewrite (dict_set_fresh acc k x (keys_distinct_mid _ _ _ Hd)).
+    rewrite (IH (acc ++ [(k, x)]) Hk).
+    + rewrite <- app_assoc. reflexivity.
+    + rewrite <- app_assoc. cbn [app]. rewrite map_app. exact Hd.
+Qed.
+
+Theorem rs_written_dict : forall kvs, writable E (VDict kvs) = true ->
+  rs E C (write E C (VDict kvs)) = Ok (VDict kvs).
+Proof.
+  intros kvs Hw. unfold writable in Hw. cbn [wr negb andb] in Hw.
+  apply andb_true_iff in Hw as [Hent Hdist].
+  rewrite forallb_forall in Hent.
+  assert (Hall : Forall elem_ok (map entry kvs)).
+  { rewrite Forall_forall. intros e He. apply in_map_iff in He as ([k x] & <- & Hin).
+    specialize (Hent (k, x) Hin). cbn beta iota in Hent.
+    apply andb_true_iff in Hent as [Hent Hwx]. apply andb_true_iff in Hent as [Hent Hndx].
+    apply andb_true_iff in Hent as [Hkey Hwk]. apply negb_true_iff in Hndx.
+    assert (Hndk : is_dict k = false) by (destruct k; try reflexivity; discriminate).
+    pose proof (read_written k false Hwk Hndk) as Hk. pose proof (read_written x false Hwx Hndx) as Hx.
+    unfold entry. cbn [fst snd].
+    split; [apply kg_read_list; apply Forall_cons; [exact Hk | apply Forall_cons; [exact Hx | apply Forall_nil]] | split; [reflexivity |]].
+    exists 91, (join [32] (map (write E C) [k; x]) ++ [93]). repeat split; try lia. }
+  assert (Hkeys : forallb (fun kv => is_key (fst kv)) kvs = true).
+  { apply forallb_forall. intros [k x] Hin. specialize (Hent (k, x) Hin). cbn beta iota in Hent.
+    apply andb_true_iff in Hent as [Hent _]. apply andb_true_iff in Hent as [Hent _].
+    apply andb_true_iff in Hent as [Hkey _]. exact Hkey. }
+  unfold rs, kg_read_array. cbn [c_top_neg std_cfg].
+  rewrite write_dict_eq.
+  remember (join [32] (map (write E C) (map entry kvs))) as body eqn:Hbody.
+  assert (Hfuel : exists f, rs_fuel (58 :: 123 :: body ++ [125]) = S f /\ (S (lneed (map entry kvs)) <= f)%nat).
+  { unfold rs_fuel. cbn [length]. rewrite app_length. cbn [length].
+    assert (Hb : (lneed (map entry kvs) <= 2 * length body + 3)%nat).
+    { subst body. apply lneed_bound. rewrite Forall_forall. intros v _. apply need_bound. }
+    exists (2 * (S (S (length body + 1))) + 3)%nat. split; lia. }
+  destruct Hfuel as (f & -> & Hf).
+  rewrite kg_read_S, skip_lexstart by (cbn; split; [reflexivity | intros _; lia]).
+  unfold kg_dispatch.
+  change (existsb (Z.eqb (if 58 =? 10 then 59 else 58)) (c_delims C)) with false.
+  change (58 =? 10) with false. change (58 =? 48) with false. cbv beta iota. cbn [andb].
+  change (is_numeric E 58) with false. change (58 =? 45) with false. change (58 =? 34) with false.
+  change (58 =? 58) with true. cbn [orb andb app]. cbv beta iota.
+  change (is_alpha E 123) with false. change (123 =? 46) with false. change (is_numeric E 123) with false.
+  change (123 =? 34) with false. change (123 =? 123) with true. cbn [orb]. cbv beta iota.
+  subst body.
+  replace (join [32] (map (write E C) (map entry kvs)) ++ [125])
+     with (join [32] (map (write E C) (map entry kvs)) ++ 125 :: []) by reflexivity.
+  rewrite (read_list_written 125 (or_intror eq_refl) (map entry kvs) Hall f [] Hf).
+  rewrite (list_to_dict_entries kvs [] Hkeys Hdist). reflexivity.
+Qed.
+
+Theorem rs_written : forall v, writable E v = true -> rs E C (write E C v) = Ok (asarray E v).
+Proof.
+  intros v Hw. destruct (is_dict v) eqn:Hd.
+  - destruct v; try discriminate. apply rs_written_dict. exact Hw.
+  - apply rs_written_nodict; assumption.
+Qed.
+
+End Main.
